@@ -17,7 +17,7 @@ fn main() {
     match args.driver.as_str() {
         "run" => {
             let mut rng = Rng::new(args.seed);
-            let mut tr = Shards::create(&args.out, "text", 14);
+            let mut tr = Shards::create(&args.out, "text", args.scale(6, 14));
             let only = args.extra.first().cloned().unwrap_or_default();
             let on = |k: &str| only.is_empty() || only == k;
             let mut split = 0;
